@@ -625,3 +625,10 @@ def r10_10(ctx):
     from .c02 import callback_operand_kind_independence
 
     callback_operand_kind_independence(ctx)
+
+
+@rule("R10.11", "C10", "a folded constant has the sort of its run-time twin: the folders' results are integers of the promoted / common type (a folded `+(2 > 1)` is an int, not a one-bit bitvector flagged bool)", min_instances=20)
+def r10_11(ctx):
+    from .c09 import r09_2
+
+    r09_2(ctx)
